@@ -242,6 +242,27 @@ pub struct PerCfg {
 const SUBST: [&str; 14] = ["sc", "ue", "rr", "rs", "nr", "diaglike", "wronglen", "wrongsrc", "request", "onlydsap", "onlyssap", "withsaps", "diagflags", "diagflags"];
 const SUBST2: [&str; 5] = ["token", "garbage", "diagshort", "shortlen", "dhwrong"];
 
+/// bytes for an abstract reply code of MC_DpSched (Code(r)): "sc", "odd", "diag.<pf><cf><pr><nr>", "data.<status>.<lenok>"
+fn abstract_reply(code: &str, maddr: u8, r: &Req, n_in: usize, ident: u16) -> Vec<u8> {
+    let parts: Vec<&str> = code.split('.').collect();
+    match parts[0] {
+        "sc" => vec![0xE5],
+        "diag" => {
+            let f: Vec<bool> = parts.get(1).unwrap_or(&"0000").chars().map(|c| c == '1').collect();
+            let s1 = (if f[0] { 0x40 } else { 0 }) | (if f[1] { 0x04 } else { 0 }) | (if f[3] { 0x02 } else { 0 });
+            let s2 = 0x04 | (if f[2] { 0x01 } else { 0 });
+            enc_data(maddr, r.da, Some(62), Some(60), 0x08, &[s1, s2, 0, if f[2] { 255 } else { maddr }, (ident >> 8) as u8, ident as u8])
+        }
+        "data" => {
+            let st = match *parts.get(1).unwrap_or(&"ok") { "ok" => 0x00, "dl" => 0x08, "dh" => 0x0A, "rs" => 0x03, _ => 0x02 };
+            let n = if parts.get(2) == Some(&"1") { n_in } else { n_in + 1 };
+            enc_data(maddr, r.da, None, None, st, &vec![0x5A; n])
+        }
+        // a response with SAPs that is neither a diagnosis nor a Data_Exchange reply
+        _ => enc_data(maddr, r.da, Some(10), Some(20), 0x08, &vec![0xA5; n_in]),
+    }
+}
+
 fn substitute(kind: &str, maddr: u8, r: &Req, n_in: usize, rng: &mut impl Rng) -> Vec<u8> {
     match kind {
         "sc" => vec![0xE5],
@@ -351,9 +372,28 @@ pub fn run(args: &Args) {
     let thorough = args.str("tier", "quick") == "thorough";
     let mode = args.str("mode", "random");
     let mut log = EvLog::create(&out);
+    let sched_file = args.str("sched", "");
+    if !sched_file.is_empty() {
+        // spec -> impl: fault schedules printed by TLC from MC_DpSched, one JSON object per line
+        let text = std::fs::read_to_string(&sched_file).expect("schedule file");
+        for (k, line) in text.lines().enumerate() {
+            let sc: Value = serde_json::from_str(line).expect("schedule line");
+            one_run(&mut log, &mut mlog, seed0.wrapping_mul(1_000_003).wrapping_add(k as u64), thorough, "sched", Some(&sc));
+            log.push(json!({"ev":"Reset"}));
+            if let Some(m) = mlog.as_mut() {
+                m.push(json!({"ev":"Reset"}));
+            }
+        }
+        log.flush();
+        if let Some(m) = mlog.as_mut() {
+            m.flush();
+        }
+        eprintln!("dp: {} events", log.count);
+        return;
+    }
     for r in 0..runs {
         let seed = seed0.wrapping_mul(1_000_003).wrapping_add(r);
-        one_run(&mut log, &mut mlog, seed, thorough, &mode);
+        one_run(&mut log, &mut mlog, seed, thorough, &mode, None);
         log.push(json!({"ev":"Reset"}));
         if let Some(m) = mlog.as_mut() {
             m.push(json!({"ev":"Reset"}));
@@ -366,13 +406,15 @@ pub fn run(args: &Args) {
     eprintln!("dp: {} events", log.count);
 }
 
-fn one_run(log: &mut EvLog, mlog: &mut Option<EvLog>, seed: u64, thorough: bool, mode: &str) {
+fn one_run(log: &mut EvLog, mlog: &mut Option<EvLog>, seed: u64, thorough: bool, mode: &str, sched: Option<&Value>) {
     let mut rng = rand::rngs::StdRng::seed_from_u64(seed);
     let bauds = [(Baudrate::B500000, 500_000i64, 200u16), (Baudrate::B1500000, 1_500_000, 300), (Baudrate::B187500, 187_500, 100), (Baudrate::B12000000, 12_000_000, 1000)];
     let (baud, rate, minslot) = bauds[rng.gen_range(0..bauds.len())];
     let slot: u16 = minslot + 100 * rng.gen_range(0..2);
-    let retry: u8 = if thorough && rng.gen_bool(0.2) { rng.gen_range(1..=15) } else { rng.gen_range(1..=3) };
-    let np = if mode == "empty" { 0 } else { rng.gen_range(1..=if thorough { 4 } else { 3 }) as usize };
+    let retry: u8 = if let Some(sc) = sched { sc["retry"].as_u64().unwrap() as u8 } else if thorough && rng.gen_bool(0.2) { rng.gen_range(1..=15) } else { rng.gen_range(1..=3) };
+    let np = if let Some(sc) = sched { sc["np"].as_u64().unwrap() as usize } else if mode == "empty" { 0 } else { rng.gen_range(1..=if thorough { 4 } else { 3 }) as usize };
+    let items: Vec<Value> = sched.map(|sc| sc["h"].as_array().cloned().unwrap_or_default()).unwrap_or_default();
+    let mut ipos = 0usize;
     let maddr = 2u8;
     let hsa = rng.gen_range(3..=5u8);
     let min_tsdr: u8 = [11u8, 11, 20, 60][rng.gen_range(0..4)];
@@ -402,7 +444,8 @@ fn one_run(log: &mut EvLog, mlog: &mut Option<EvLog>, seed: u64, thorough: bool,
             }
         };
         let big = thorough && rng.gen_bool(0.1);
-        let n_in = if big { rng.gen_range(0..=244) } else { rng.gen_range(0..5usize) };
+        let n_in = if let Some(sc) = sched { if sc["nin0"][pcs.len()].as_bool().unwrap_or(false) { 0 } else { rng.gen_range(1..5usize) } }
+                   else if big { rng.gen_range(0..=244) } else { rng.gen_range(0..5usize) };
         let n_out = if big { rng.gen_range(0..=244) } else { rng.gen_range(0..5usize) };
         let nprm = if big { rng.gen_range(0..=237) } else { rng.gen_range(0..6usize) };
         let ncfg = if big { rng.gen_range(1..=244) } else { rng.gen_range(1..4usize) };
@@ -503,7 +546,7 @@ fn one_run(log: &mut EvLog, mlog: &mut Option<EvLog>, seed: u64, thorough: bool,
     let fault_p: f64 = if mode == "clean" || mode == "neg" || edge { 0.0 } else if mode == "flags" { 0.05 } else { [0.0, 0.03, 0.1, 0.3, 0.6][rng.gen_range(0..5)] };
     let fault_len_us: i64 = rng.gen_range(50..800) * slot_us;
     let start_us: i64 = 0;
-    let fault_until = start_us + fault_len_us;
+    let mut fault_until = if sched.is_some() { i64::MAX / 4 } else { start_us + fault_len_us };
     let mut faults_end_logged = false;
     let mut neg_started = false;
     let mut cycles_after = 0i64;
@@ -513,8 +556,13 @@ fn one_run(log: &mut EvLog, mlog: &mut Option<EvLog>, seed: u64, thorough: bool,
     let mut last_flags: Vec<(bool, bool, Vec<u8>)> = pcs.iter().map(|p| (false, false, vec![0u8; p.n_in])).collect();
     let mut polls = 0u64;
     let max_cycles_after = bdp_cycles + 6;
-    let hard_stop_us = fault_until + 4000 * slot_us * (np as i64 + 1) * (retry as i64 + 1);
+    let mut hard_stop_us = if sched.is_some() { i64::MAX / 2 } else { fault_until + 4000 * slot_us * (np as i64 + 1) * (retry as i64 + 1) };
     loop {
+        if sched.is_some() && ipos >= items.len() && fault_until > now && pending_reply.is_none() {
+            // the schedule is consumed: the rest of the run is fault-free
+            fault_until = now;
+            hard_stop_us = now + 4000 * slot_us * (np as i64 + 1) * (retry as i64 + 1);
+        }
         now += 1.max(period_us / 2 + rng.gen_range(0..=period_us / 2));
         let tt = now * TPU;
         if now > hard_stop_us {
@@ -544,7 +592,7 @@ fn one_run(log: &mut EvLog, mlog: &mut Option<EvLog>, seed: u64, thorough: bool,
             faults_end_logged = true;
         }
         // ---- user calls and slave-side events at arbitrary points between polls
-        if np > 0 {
+        if np > 0 && sched.is_none() {
             if rng.gen_bool(if edge { 0.01 } else { 0.002 }) {
                 let i = rng.gen_range(0..np);
                 dpm.get_mut(handles[i]).request_diagnostics();
@@ -636,6 +684,62 @@ fn one_run(log: &mut EvLog, mlog: &mut Option<EvLog>, seed: u64, thorough: bool,
             }
             let Some(i) = slaves.iter().position(|s| s.addr == r.da) else { continue };
             // environment: channel decision for this request
+            if sched.is_some() && ipos < items.len() {
+                // walk the schedule up to the decision about this request; environment items on the way are applied now
+                let mut decision: Option<Value> = None;
+                while ipos < items.len() {
+                    let it = items[ipos].clone();
+                    ipos += 1;
+                    let k = it["k"].as_str().unwrap_or("");
+                    let pi = (it["p"].as_u64().unwrap_or(1) as usize).saturating_sub(1).min(np.saturating_sub(1));
+                    match k {
+                        "tx" => {}
+                        "powercycle" => { slaves[pi].power_cycle(); log.push(json!({"ev":"PowerCycle","p":pi + 1,"t":tt})); }
+                        "poweroff" => { slaves[pi].powered = false; slaves[pi].power_cycle(); log.push(json!({"ev":"Power","p":pi + 1,"on":false,"t":tt})); }
+                        "poweron" => { slaves[pi].powered = true; slaves[pi].power_cycle(); log.push(json!({"ev":"Power","p":pi + 1,"on":true,"t":tt})); }
+                        "slavediag" => { slaves[pi].diag_pending = true; }
+                        "userdiag" => { dpm.get_mut(handles[pi]).request_diagnostics(); log.push(json!({"ev":"UserDiag","p":pi + 1,"t":tt})); }
+                        _ => { decision = Some(it); break; }
+                    }
+                }
+                // items the model placed between this decision and the master's next transmit are applied right away
+                while ipos < items.len() && !matches!(items[ipos]["k"].as_str().unwrap_or(""), "tx" | "deliver" | "losereq" | "losereply" | "subst" | "nobody") {
+                    let it = items[ipos].clone();
+                    ipos += 1;
+                    let pi = (it["p"].as_u64().unwrap_or(1) as usize).saturating_sub(1).min(np.saturating_sub(1));
+                    match it["k"].as_str().unwrap_or("") {
+                        "powercycle" => { slaves[pi].power_cycle(); log.push(json!({"ev":"PowerCycle","p":pi + 1,"t":tt})); }
+                        "poweroff" => { slaves[pi].powered = false; slaves[pi].power_cycle(); log.push(json!({"ev":"Power","p":pi + 1,"on":false,"t":tt})); }
+                        "poweron" => { slaves[pi].powered = true; slaves[pi].power_cycle(); log.push(json!({"ev":"Power","p":pi + 1,"on":true,"t":tt})); }
+                        "slavediag" => { slaves[pi].diag_pending = true; }
+                        "userdiag" => { dpm.get_mut(handles[pi]).request_diagnostics(); log.push(json!({"ev":"UserDiag","p":pi + 1,"t":tt})); }
+                        _ => {}
+                    }
+                }
+                if let Some(d) = decision {
+                    let dmax = (slot as i64 - 40).min(90).max(min_tsdr as i64);
+                    let delay = bits(rng.gen_range(min_tsdr as i64..=dmax));
+                    match d["k"].as_str().unwrap_or("") {
+                        "losereq" => { log.push(json!({"ev":"Env","k":"LoseReq","p":i + 1,"t":end})); continue; }
+                        "losereply" => { let _ = slaves[i].handle(&r); log.push(json!({"ev":"Env","k":"LoseReply","p":i + 1,"t":end})); continue; }
+                        "subst" => {
+                            if slaves[i].handle(&r).is_some() {
+                                let b = abstract_reply(d["r"].as_str().unwrap_or("sc"), maddr, &r, slaves[i].n_in, slaves[i].ident);
+                                log.push(json!({"ev":"Env","k":"Subst","p":i + 1,"t":end,"code":d["r"]}));
+                                pending_reply = Some((end + delay, b, r.da));
+                            }
+                            continue;
+                        }
+                        _ => {
+                            // "deliver" / "nobody": the slave (if powered) answers
+                            if let Some(good) = slaves[i].handle(&r) {
+                                pending_reply = Some((end + delay, good, r.da));
+                            }
+                            continue;
+                        }
+                    }
+                }
+            }
             if edge {
                 let fresh = lastreq[i] != bytes;
                 lastreq[i] = bytes.clone();
